@@ -771,8 +771,16 @@ def check_ds_shape(ctx):
             'bins is not None',) and lab == 'true' for n, lab in path) or \
             any(n.kind == 'test' and txt(n.ast) == 'bins is None' and
                 lab == 'false' for n, lab in path)
-        if given and not any(is_bins_len_test(n) and lab == 'false' and
-                             raises_on(n, 'true') for n, lab in path):
+        # an EMPTY dictionary of bins has nothing to test (the shipped test
+        # short-circuits on it: `bins and any(...)`)
+        empty = any(n.kind == 'test' and (
+            (txt(n.ast) == 'not bins' and lab == 'true') or
+            (txt(n.ast) == 'bins' and lab == 'false') or
+            (txt(n.ast).replace(' ', '') in ('len(bins)==0',) and
+             lab == 'true')) for n, lab in path)
+        if given and not empty and not any(
+                is_bins_len_test(n) and lab == 'false' and
+                raises_on(n, 'true') for n, lab in path):
             ok = False
     ctx.decide('DS-SHAPE', init, 'self.bins stored only after the '
                'per-dimension N or N+1 test when bins are given',
